@@ -585,15 +585,19 @@ def setGeomT (t : Tree) (win : Id) (g : Rect) : Out Tree := do
   let w ← ofRes (WinTree.get t win)
   pure (WinTree.set t win { w with rect := g })
 
-/-- `tickit_window_set_pen`. -/
+/-- `win->pen = tickit_pen_ref(pen)` for a window that holds no pen. -/
+def assignPen (st : St) (win : Id) (k : Nat) : Out St := do
+  let st ← penRef st k
+  pure (setX st win { getX st win with pen := .app k })
+
+/-- `tickit_window_set_pen`: `if(win->pen) tickit_pen_unref(win->pen); win->pen = pen ? tickit_pen_ref(pen) : NULL`. -/
 def setPen (st : St) (win : Id) (pen : Option Nat) : Out St := do
   let _ ← getW st win
   let st ← dropWinPen st win
+  let st := setX st win { getX st win with pen := .null }
   match pen with
-  | some k => do
-    let st ← penRef st k
-    pure (setX st win { getX st win with pen := .app k })
-  | none => pure (setX st win { getX st win with pen := .null })
+  | some k => assignPen st win k
+  | none => pure st
 
 /-! ### focus (`tickit_window_take_focus`; no FOCUS handlers are bound in this engine) -/
 
